@@ -128,9 +128,10 @@ def make_object(name, rng):
   if name == "UniformOutputInitializer":
     return pl.UniformOutputInitializer(0.0, 1.0, P(rng, "decreasing", "none", 1), keypoints=P(rng, None, [0.0, 1.0, 4.0])), None
   if name == "PWLCalibrationConstraints":
-    return pl.PWLCalibrationConstraints(monotonicity=P(rng, 1, "decreasing", "none"), convexity=P(rng, -1, 0, "convex"), lengths=P(rng, None, [1.0, 2.0]),
-                                        output_min=P(rng, None, 0.0), output_max=P(rng, None, 1.0),
-                                        output_min_constraints=P(rng, plib.BoundConstraintsType.CLAMPED, plib.BoundConstraintsType.NONE),
+    pm = P(rng, 1, "decreasing", "none")
+    return pl.PWLCalibrationConstraints(monotonicity=pm, convexity=P(rng, -1, 0, "convex"), lengths=[1.0, 2.0],
+                                        output_min=0.0, output_max=P(rng, None, 1.0),
+                                        output_min_constraints=(P(rng, plib.BoundConstraintsType.CLAMPED, plib.BoundConstraintsType.BOUND) if pm != "none" else plib.BoundConstraintsType.BOUND),
                                         output_max_constraints=P(rng, plib.BoundConstraintsType.BOUND, plib.BoundConstraintsType.NONE),
                                         num_projection_iterations=P(rng, 8, 5)), None
   if name == "NaiveBoundsConstraints":
@@ -268,6 +269,14 @@ def _attr_eq(a, b):
   return _norm(a) == _norm(b)
 
 
+def flat(y):
+  if isinstance(y, dict):
+    return np.concatenate([np.asarray(y[k]).ravel() for k in sorted(y)])
+  if isinstance(y, (list, tuple)):
+    return np.concatenate([np.asarray(t).ravel() for t in y])
+  return np.asarray(y).ravel()
+
+
 def _run_object(ctx, case, st):
   tf, keras = st["tf"], st["keras"]
   rng = np.random.RandomState(case["seed"])
@@ -324,12 +333,6 @@ def _run_object(ctx, case, st):
         o.set_weights(ws)
         o2.set_weights(o.get_weights())
         y1, y2 = o(inp), o2(inp)
-        def flat(y):
-          if isinstance(y, dict):
-            return np.concatenate([np.asarray(y[k]).ravel() for k in sorted(y)])
-          if isinstance(y, (list, tuple)):
-            return np.concatenate([np.asarray(t).ravel() for t in y])
-          return np.asarray(y).ravel()
         a, b = flat(y1), flat(y2)
         if a.shape != b.shape or not np.array_equal(a, b, equal_nan=True):
           msgs.append("outputs differ by %.3g after copying the weights" % (float(np.nanmax(np.abs(a - b))) if a.shape == b.shape else -1))
@@ -340,6 +343,50 @@ def _run_object(ctx, case, st):
         if c1 != c2_:
           msgs.append("constrained variables differ: %s vs %s" % (c1, c2_))
       ctx.check("layer/same-variables-and-outputs", not msgs, "%s: %s" % (name, "; ".join(msgs)), info=info)
+    # ---- through the serialised (JSON) form, as model.save / to_json do: tuples come back as lists ----------
+    try:
+      import json as _json
+      from tf_keras.src.saving.legacy.saved_model import json_utils
+      cj = _json.loads(_json.dumps(c, default=json_utils.get_json_type))      # what model.to_json() does: tuples become lists
+    except Exception as e:
+      ctx.note("json-encode-skipped:" + type(e).__name__)
+      cj = None
+    if cj is not None and name != "PWLCalibrationConstraints":      # its enum-valued arguments are not JSON data
+      try:
+        o3 = cls.from_config(cj)
+        msgs = []
+        if _norm(o3.get_config()) != n1:
+          msgs.append("config differs after the JSON round trip")
+        if x is not None:
+          o3(inp)
+          if [(v.name.split("/", 1)[-1], tuple(v.shape)) for v in o3.weights] == v1:
+            o3.set_weights(o.get_weights())
+            for v in o3.trainable_variables:          # the re-attached constraints must be usable (resume training)
+              if v.constraint is not None:
+                v.assign(v.constraint(v))
+            for v in o.trainable_variables:
+              if v.constraint is not None:
+                v.assign(v.constraint(v))
+            a, b = flat(o(inp)), flat(o3(inp))
+            if a.shape != b.shape or not np.array_equal(a, b, equal_nan=True):
+              msgs.append("outputs differ after JSON round trip + constraint application")
+          else:
+            msgs.append("variables differ after the JSON round trip")
+        elif callable(o) and name in ("LatticeConstraints", "PWLCalibrationConstraints", "LinearConstraints", "CategoricalCalibrationConstraints",
+                                      "NaiveBoundsConstraints", "ScaleConstraints"):
+          shape = {"LatticeConstraints": (12, 2), "PWLCalibrationConstraints": (3, 2), "LinearConstraints": (2, 2),
+                   "CategoricalCalibrationConstraints": (3, 2), "NaiveBoundsConstraints": (1, 2), "ScaleConstraints": (2, 2)}[name]
+          w = tf.constant((rng.normal(size=shape) * 2).astype(np.float32))
+          if name == "PWLCalibrationConstraints" and o.lengths is None:
+            pass
+          else:
+            ra, rb = np.asarray(o(w)), np.asarray(o3(w))
+            if not np.array_equal(ra, rb, equal_nan=True):
+              msgs.append("constraint output differs after the JSON round trip")
+        ctx.check("json-round-trip/same-behaviour", not msgs, "%s: %s" % (name, "; ".join(msgs)), info=info)
+      except Exception as e:
+        ctx.check("json-round-trip/same-behaviour", False,
+                  "%s rebuilt from its JSON-serialised config: %s: %s" % (name, type(e).__name__, str(e).strip().splitlines()[-1][:160]), info=info)
   return True, core.digest([name, _norm(c)])
 
 
